@@ -269,3 +269,9 @@ def candidates(sc):
                 c = copy.deepcopy(sc)
                 c["clean"][i]["ident"] = "/ABC5"
                 yield c
+
+
+def trace(sc):
+    wire, sent = wire_of(sc)
+    yield f"noise[{len(sc['noise']) // 2}]={sc['noise'][:120]} then {len(sent)} clean messages; wire {len(wire)} octets"
+    yield from reader_rig.trace_feed(sc["reader"], tuple(sc["cfg"]) if sc["cfg"] else None, wire, sc["cuts"])
